@@ -33,7 +33,7 @@ for f in sorted(os.listdir(src)):
 meta = {
     "id": sid,
     "breaks_property": prop,
-    "source": "independent sub-agent given only the property text and a scratch worktree (round 4; told which mechanisms earlier rounds had already used)",
+    "source": "independent sub-agent given only the property text and a scratch worktree (later rounds: told which mechanisms earlier rounds had already used)",
     "needs_to_manifest": needs,
     "base_commit": "60bfc82 (/repo HEAD with all fix: commits)",
     "confirmed": {
